@@ -272,6 +272,8 @@ func main() {
 	for _, x := range []struct{ file, fn, def string }{
 		{"project.go", "Project.loadTargetInfo", "bodyLoadTargetInfo"},
 		{"project_index.go", "Project.loadIndex", "bodyLoadIndex"},
+		{"project.go", "unescapeLabel", "bodyUnescapeLabel"},
+		{"project.go", "depStamps.UnmarshalJSON", "bodyDepStampsUnmarshal"},
 	} {
 		if f, err := lib.Parse(*repo, x.file); err != nil {
 			o.Fail("parse %s: %v", x.file, err)
